@@ -46,7 +46,7 @@ class C10Machine(Machine):
         "transitive_curie_remap_applied", "uri_remap_applied", "rewire_applied",
         "chain_merged_later_into_earlier", "discover_with_known_uris", "lineage_depth_ge_3",
         "sub_nonempty", "mutation_right_after_derivation", "chain_same_converter_twice",
-        "curie_remap_applied", "large_root", "followup_add_with_pattern", "same_record_followed_through_lineage", "empty_mapping", "empty_prefix_subset", "same_derivation_again", "alternating_lookups", "intermediate_converter_garbage_collected", "same_derivation_same_result", "subset_given_as_str", "root_with_more_than_256_records",
+        "curie_remap_applied", "large_root", "followup_add_with_pattern", "same_record_followed_through_lineage", "empty_mapping", "empty_prefix_subset", "same_derivation_again", "alternating_lookups", "intermediate_converter_garbage_collected", "same_derivation_same_result", "subset_given_as_str", "root_with_more_than_256_records", "baseline_without_any_query", "converter_first_queried_after_it_was_an_input",
     ]
 
     @classmethod
@@ -69,6 +69,10 @@ class C10Machine(Machine):
             "p_merge": rng.choice([0.5, 0.8, 1.0]),
             "p_hit_inherited": rng.choice([0.5, 0.8, 0.95]),
             "delimiters": [":"] + ([rng.choice(tokens.DELIMITERS[1:])] if rng.random() < 0.3 else []),
+            # share of steps after which the converter the step produced / modified is NOT queried by the
+            # harness (its baseline is then the records, views and index dictionaries only): a derivation
+            # from a converter nobody has looked up anything in yet - what call chains do
+            "p_cold": rng.choice([0.0, 0.25, 0.5]),
         }
         large = rng.random() < (0.03 if tier == "quick" else 0.06)
         cfg["large"] = large
@@ -107,10 +111,25 @@ class C10Machine(Machine):
 
     # ----------------------------------------------------------- generation
     def gen_op(self, rng):
+        op = self._gen_op(rng)
+        if op is not None and op["op"] != "forget" and rng.random() < self.config.get("p_cold", 0.0):
+            op["cold"] = True
+        return op
+
+    def _gen_op(self, rng):
         cfg = self.config
         if not self.entries:
             return self._gen_new(rng)
-        if self.last_was_derivation is not None and rng.random() < cfg["p_mutate_after_derive"]:
+        deep_lineage = self.last_was_derivation is not None and any(
+            self.entries[p].parents for p in self.entries[self.last_was_derivation].parents)
+        if deep_lineage and not self.just_forgot and rng.random() < 0.3:
+            # a.derive(..).derive(..): the INTERMEDIATE converter is a temporary that goes away before
+            # anything is written to the result
+            alive = [pid for pid in self.entries[self.last_was_derivation].parents
+                     if self.entries[pid].conv is not None and self.entries[pid].parents]
+            if alive:
+                return {"op": "forget", "h": rng.choice(alive)}
+        if self.last_was_derivation is not None and rng.random() < (0.9 if self.just_forgot else cfg["p_mutate_after_derive"]):
             h = self.last_was_derivation
             return self._gen_mutate(rng, h)
         if self.last_was_derivation is not None and not self.just_forgot and rng.random() < 0.15:
@@ -361,6 +380,12 @@ class C10Machine(Machine):
 
     @staticmethod
     def simplify_op(op):
+        if op.get("cold"):
+            yield {k: v for k, v in op.items() if k != "cold"}
+        yield from C10Machine._simplify_op(op)
+
+    @staticmethod
+    def _simplify_op(op):
         if op["op"] == "new":
             for i in range(len(op["records"])):
                 if len(op["records"]) > 1:
@@ -416,18 +441,47 @@ class C10Machine(Machine):
                 yield dict(copy.deepcopy(op), kind="add_prefix")
 
     # ------------------------------------------------------------ execution
-    def _lite(self, conv):
-        return observe.snapshot(conv, self.strings, self.pairs, full=False, ordered=True)
+    # Baselines. The property is about what a DERIVATION (or a later modification of its result) does to
+    # a converter - not about what the harness's own queries do to it. A baseline is therefore either
+    #   warm: the answers on the probe set, and the structure as it is AFTER those queries were made
+    #         (whatever a converter builds or tidies up lazily on lookup has then happened), or
+    #   cold: the structure only, no query made at all since the converter was created / last modified.
+    # A re-check reads the structure first (nothing but the judged calls happened since the baseline),
+    # then asks the queries, then settles a new warm baseline.
+    def _warm(self, conv):
+        ans = observe.answers(conv, self.strings, self.pairs, full=False)
+        return {"structure": observe.structure(conv), "answers": ans}
 
-    def _full(self, conv):
-        return observe.snapshot(conv, self.strings, self.pairs, full=True, ordered=True)
+    def _cold(self, conv):
+        self.probe("baseline_without_any_query")
+        return {"structure": observe.structure(conv), "answers": None}
 
-    def _add(self, conv, parents, origin, out):
+    def _baseline(self, conv, cold):
+        return self._cold(conv) if cold else self._warm(conv)
+
+    def _recheck(self, e):
+        """None if the converter of entry ``e`` is observably what its baseline says (the baseline is then
+        settled warm); else the list of differences."""
+        pre = observe.structure(e.conv)
+        if pre != e.lite["structure"]:
+            return observe.diff(e.lite["structure"], pre, path="/structure")
+        ans = observe.answers(e.conv, self.strings, self.pairs, full=False)
+        if e.lite["answers"] is not None and ans != e.lite["answers"]:
+            return observe.diff(e.lite["answers"], ans, path="/answers")
+        if e.lite["answers"] is None:
+            self.probe("converter_first_queried_after_it_was_an_input")
+        post = observe.structure(e.conv)
+        if post != pre:
+            self.event("structure_changed_by_the_harness_own_queries")     # not a derivation's doing
+        e.lite = {"structure": post, "answers": ans}
+        return None
+
+    def _add(self, conv, parents, origin, out, cold=False):
         if out is None or out in self.entries:
             out = max(list(self.entries) + [self.next_id - 1]) + 1
         self.next_id = max(self.next_id, out + 1)
         e = Entry(conv, parents, origin, self.steps)
-        e.lite = self._lite(conv)
+        e.lite = self._baseline(conv, cold)
         self.entries[out] = e
         return out
 
@@ -462,7 +516,7 @@ class C10Machine(Machine):
                                    delimiter=op.get("delimiter", ":"))
             except Exception:  # noqa: BLE001 - building roots is not what this property is about
                 return {"skipped": "invalid records"}
-            h = self._add(conv, [], "new", op.get("out"))
+            h = self._add(conv, [], "new", op.get("out"), cold=bool(op.get("cold")))
             self.event("new")
             if len(op["records"]) >= 8:
                 self.probe("large_root")
@@ -553,10 +607,10 @@ class C10Machine(Machine):
         changed_kind = "input_changed" if err is None else "input_changed_on_raise"
         for h in sorted(set(hs)):
             e = self.entries[h]
-            now = self._lite(e.conv)
-            if now != e.lite:
+            d = self._recheck(e)
+            if d is not None:
                 raise Violation(PROP, changed_kind, site,
-                                {"input": h, "diff": observe.diff(e.lite, now), "op": op,
+                                {"input": h, "diff": d, "op": op,
                                  "exception": type(err).__name__ if err else None})
         # everything else in the world: not a stated direction of *this* step unless it is an
         # ancestor of an input (a derivation from D must not disturb D's own inputs either)
@@ -565,10 +619,10 @@ class C10Machine(Machine):
             e = self.entries[a]
             if e.conv is None:
                 continue
-            now = self._lite(e.conv)
-            if now != e.lite:
+            d = self._recheck(e)
+            if d is not None:
                 raise Violation(PROP, changed_kind, site,
-                                {"input": a, "via": "ancestor of an input", "diff": observe.diff(e.lite, now), "op": op})
+                                {"input": a, "via": "ancestor of an input", "diff": d, "op": op})
         self._refresh_unstated(exclude=set(hs) | set(anc))
 
         if err is None:
@@ -578,7 +632,7 @@ class C10Machine(Machine):
                 if other.conv is not None and result is other.conv:
                     # "return a new converter": an object that an earlier derivation already handed out is not new
                     raise Violation(PROP, "not_new_object", site, {"op": op, "same_object_as_converter": oid})
-            h = self._add(result, hs, kind, op.get("out"))
+            h = self._add(result, hs, kind, op.get("out"), cold=bool(op.get("cold")))
             # what an input hands out for the same request must not depend on what happened to an earlier
             # result (the request is a query of the input, too)
             rstruct = observe.structure(result, ordered=False)
@@ -591,7 +645,8 @@ class C10Machine(Machine):
                 self.probe("same_derivation_same_result")
             self.derived_before[dkey] = (stamp, rstruct)
             self._reach_after_derivation(kind, op, hs, result)
-            self._alternate(result, sorted(set(hs)), None, site, "input_changed", op)
+            if not op.get("cold"):
+                self._alternate(result, sorted(set(hs)), None, site, "input_changed", op)
             self.last_was_derivation = h
             if self._depth(h) >= 3:
                 self.probe("lineage_depth_ge_3")
@@ -679,11 +734,11 @@ class C10Machine(Machine):
             ae = self.entries[a]
             if ae.conv is None:
                 continue
-            now = self._lite(ae.conv)
-            if now != ae.lite:
+            d = self._recheck(ae)
+            if d is not None:
                 raise Violation(PROP, "leak_to_ancestor", site,
-                                {"mutated": h, "ancestor": a, "diff": observe.diff(ae.lite, now), "op": op})
-        if anc:
+                                {"mutated": h, "ancestor": a, "diff": d, "op": op})
+        if anc and not op.get("cold"):
             self._alternate(e.conv, anc, rd["prefix"], site, "leak_to_ancestor", op)
         if err is None and rd.get("pattern") and anc:
             self.probe("followup_add_with_pattern")
@@ -691,7 +746,7 @@ class C10Machine(Machine):
             self.probe("followup_merge_hits_inherited_record")
             self.nontrivial_hit = True
         # the mutated converter legitimately changed: refresh it
-        e.lite = self._lite(e.conv)
+        e.lite = self._baseline(e.conv, bool(op.get("cold")))
         e.mutated = True
         e.n_mut += 1
         self._refresh_unstated(exclude=set(anc) | {h})
@@ -737,7 +792,7 @@ class C10Machine(Machine):
             if observe.structure(e.conv) != e.lite["structure"]:
                 self.unstated += 1
                 self.event("unstated_direction_change")
-                e.lite = self._lite(e.conv)
+                e.lite = self._warm(e.conv)
 
     def _note(self, kind="op", outcome=None):
         self.note_state([e.lite["structure"]["records"] for _, e in sorted(self.entries.items()) if e.lite is not None], kind, outcome)
@@ -746,7 +801,7 @@ class C10Machine(Machine):
         for e in self.entries.values():
             if e.conv is None:
                 continue
-            e.lite = self._lite(e.conv)
+            e.lite = self._warm(e.conv)
 
     def finish(self):
         # end of run: every converter against its latest legitimate baseline (catches a change that
@@ -754,11 +809,10 @@ class C10Machine(Machine):
         for i, e in sorted(self.entries.items()):
             if e.conv is None:
                 continue
-            now = self._lite(e.conv)
-            if now != e.lite:
+            d = self._recheck(e)
+            if d is not None:
                 site = SITE.get(e.origin, e.origin)
-                raise Violation(PROP, "changed_by_end_of_run", site,
-                                {"converter": i, "diff": observe.diff(e.lite, now)})
+                raise Violation(PROP, "changed_by_end_of_run", site, {"converter": i, "diff": d})
 
     def nontrivial(self):
         return self.nontrivial_hit
